@@ -23,7 +23,7 @@ Fixpoint bt_insert (k : string) (v : jvalue) (l : list (string * jvalue)) : list
 
 (** Text of an integer inside JSON.  The code converts i64/u64 through `as f64`; see
     DESIGN F4.  [int_json_text] is the single place that models this conversion. *)
-Definition int_json_text (z : Z) : string := (Z_to_string z ++ ".0")%string.
+Definition int_json_text (z : Z) : string := Z_to_string z.
 
 Definition num_to_json (n : num) : jvalue :=
   match n with
